@@ -20,35 +20,57 @@ theorem runChain_entry_steps (h : Hier) (d : Nat) (args : List Int) (s : Nat) :
           · exact ih _ _ e he
         · simp
 
-theorem construct_wrapped (h : Hier) (stopAt : Nat) (pre : Option Nat) :
-    (Obj.construct h stopAt pre).dictStep = some .wrapper ∧ (Obj.construct h stopAt pre).inst.steps = 0 ∧
-    (Obj.construct h stopAt pre).userStep = (match pre with | some f => .fn f | none => .chain) := by
+theorem construct_wrapped (h : Hier) (stopAt : Nat) (pre : Option Nat) (rz : Option Nat := none) :
+    (Obj.construct h stopAt pre rz).dictStep = some .wrapper ∧ (Obj.construct h stopAt pre rz).inst.steps = 0 ∧
+    (Obj.construct h stopAt pre rz).userStep = (match pre with | some f => .fn f | none => .chain) ∧
+    (Obj.construct h stopAt pre rz).raiser = rz := by
   cases pre <;> simp [Obj.construct, Obj.init, Obj.alloc]
+
+theorem takeThrough_prefix (r : Nat) (l : List Entry) : takeThrough r l <+: l := by
+  induction l with
+  | nil => exact List.prefix_refl _
+  | cons e es ih =>
+    unfold takeThrough
+    split
+    · exact ⟨es, rfl⟩
+    · exact (List.prefix_cons_inj e).mpr ih
+
+/-- cutting keeps a prefix: every record that remains was made by the uncut chain -/
+theorem cutAt_prefix (r : Option Nat) (res : List Entry × Bool) : (cutAt r res).1 <+: res.1 := by
+  unfold cutAt
+  cases r with
+  | none => exact List.prefix_refl _
+  | some r =>
+    simp only
+    split
+    · exact takeThrough_prefix r _
+    · exact List.prefix_refl _
 
 theorem call_wrapped_steps (o : Obj) (hw : o.dictStep = some .wrapper) (args : List Int) :
     (o.call args).obj.inst.steps = o.inst.steps + 1 ∧ (o.call args).obj.dictStep = some .wrapper ∧
     (o.call args).obj.userStep = o.userStep ∧
     (∀ e ∈ (o.call args).entries, e.steps = o.inst.steps + 1) ∧ (∀ c ∈ (o.call args).fns, c.steps = o.inst.steps + 1) := by
-  obtain ⟨i, d, u⟩ := o
+  obtain ⟨i, d, u, rz⟩ := o
   simp only at hw
   subst hw
   cases u with
   | chain =>
     refine ⟨rfl, rfl, rfl, ?_, by simp [Obj.call]⟩
-    exact runChain_entry_steps _ _ _ _
+    intro e he
+    exact runChain_entry_steps _ _ _ _ e ((cutAt_prefix _ _).subset he)
   | fn f => exact ⟨rfl, rfl, rfl, by simp [Obj.call], by simp [Obj.call]⟩
 
 theorem call_wrapped_chain (o : Obj) (hw : o.dictStep = some .wrapper) (hu : o.userStep = .chain) (args : List Int) :
-    (o.call args).entries = (callStep o.inst args).2.1 ∧ (o.call args).ok = (callStep o.inst args).2.2 ∧
-    (o.call args).obj.inst = (callStep o.inst args).1 ∧ (o.call args).fns = [] := by
-  obtain ⟨i, d, u⟩ := o
+    (o.call args).entries = (callStepR o.inst o.raiser args).2.1 ∧ (o.call args).ok = (callStepR o.inst o.raiser args).2.2 ∧
+    (o.call args).obj.inst = (callStepR o.inst o.raiser args).1 ∧ (o.call args).fns = [] := by
+  obtain ⟨i, d, u, rz⟩ := o
   simp only at hw hu
   subst hw; subst hu
   exact ⟨rfl, rfl, rfl, rfl⟩
 
 theorem call_wrapped_fn (o : Obj) (hw : o.dictStep = some .wrapper) (f : Nat) (hu : o.userStep = .fn f) (args : List Int) :
     (o.call args).entries = [] ∧ (o.call args).fns = [⟨f, o.inst.steps + 1, args⟩] ∧ (o.call args).ok = !raisesFn f := by
-  obtain ⟨i, d, u⟩ := o
+  obtain ⟨i, d, u, rz⟩ := o
   simp only at hw hu
   subst hw; subst hu
   exact ⟨rfl, rfl, rfl⟩
@@ -121,5 +143,36 @@ theorem run_unwrapped (o : Obj) (hw : o.dictStep ≠ some .wrapper) (ops : List 
 
 theorem Obj.run_append (o : Obj) (l1 l2 : List BOp) : o.run (l1 ++ l2) = (o.run l1).run l2 := by
   simp [Obj.run, List.foldl_append]
+
+theorem apply_raiser (o : Obj) (op : BOp) : (o.apply op).raiser = o.raiser := by
+  cases op with
+  | call args =>
+    simp only [Obj.apply, Obj.call]
+    cases o.dictStep with
+    | none => rfl
+    | some sl =>
+      cases sl with
+      | wrapper => cases o.userStep <;> rfl
+      | fn f => rfl
+  | assign f => rfl
+  | del => rfl
+  | setUser f => rfl
+
+theorem run_raiser (o : Obj) (ops : List BOp) : (o.run ops).raiser = o.raiser := by
+  induction ops generalizing o with
+  | nil => rfl
+  | cons op ops ih =>
+    have e : (o.run (op :: ops)) = (o.apply op).run ops := rfl
+    rw [e, ih, apply_raiser]
+
+theorem takeThrough_split (r : Nat) (pre : List Entry) (e : Entry) (post : List Entry) (he : e.depth = r)
+    (hpre : ∀ x ∈ pre, x.depth ≠ r) : takeThrough r (pre ++ e :: post) = pre ++ [e] := by
+  induction pre with
+  | nil => simp [takeThrough, he]
+  | cons p pre ih =>
+    have hp : (p.depth == r) = false := by simpa using hpre p List.mem_cons_self
+    simp only [List.cons_append, takeThrough, hp]
+    rw [ih (fun x hx => hpre x (List.mem_cons_of_mem _ hx))]
+    rfl
 
 end Mesa.Steps
